@@ -23,6 +23,9 @@ import (
 // isEmpty() == true.
 func c11ProofList(c *Check, rule string) {
 	p := c.P
+	if rule == "R11.8" {
+		defer c11Length(c, "R11.9")
+	}
 	c.Rule(rule, "the proof list returned with a blob is maintained per row: appended once per row, cut back after a non-matching multi-row blob, cleared at an idle row end")
 	ret := p.Func("blob", "Service", "retrieve")
 	verify := p.Func("blob", "parser", "verify")
@@ -147,4 +150,65 @@ func dominatedByComment(b *ssa.BasicBlock, comment string) bool {
 		}
 	}
 	return false
+}
+
+// c11Length (R11.9): the number of shares a blob needs is computed in one place and
+// from one share: every assignment of parser.length outside reset() is
+// SparseSharesNeeded(sequence length, has-signer) where both arguments are read from
+// the first share AFTER padding was skipped (the result of skipPadding), the signer
+// flag being that share's version. A constant shortcut, or a version read from the
+// share in front of the padding, miscounts blobs of share version 1.
+func c11Length(c *Check, rule string) {
+	p := c.P
+	c.Rule(rule, "the share count of a blob is SparseSharesNeeded(sequence length, version flag) of the first share after skipped padding")
+	n := 0
+	for _, f := range p.FuncsOfPkg("blob") {
+		if recvName(rootFunc(f)) != "parser" || f.Name() == "reset" {
+			continue
+		}
+		var skip *ssa.Call
+		for _, b := range f.Blocks {
+			for _, ins := range b.Instrs {
+				if g, ok := ins.(*ssa.Call); ok && g.Call.StaticCallee() != nil && g.Call.StaticCallee().Name() == "skipPadding" {
+					skip = g
+				}
+			}
+		}
+		for _, b := range f.Blocks {
+			for _, ins := range b.Instrs {
+				st, ok := ins.(*ssa.Store)
+				if !ok {
+					continue
+				}
+				fa, ok := st.Addr.(*ssa.FieldAddr)
+				if !ok || fieldOf(fa) == nil || fieldOf(fa).Name() != "length" || ownerName(fa) != "parser" {
+					continue
+				}
+				n++
+				c.SawFunc(f)
+				g, _ := resolveCall(st.Val)
+				okCall := g != nil && calleeObj(&g.Call) != nil && calleeObj(&g.Call).Name() == "SparseSharesNeeded" && len(g.Call.Args) == 2
+				c.Ob(rule, "parser.length@"+fnName(f)+": computed by SparseSharesNeeded", okCall, p.Pos(st.Pos()), "parser.length is assigned the result of libshare.SparseSharesNeeded only")
+				if !okCall {
+					continue
+				}
+				fromFirstShare := func(v ssa.Value, method string) bool {
+					sl := backSlice(v, SliceOpt{CallArgs: true})
+					return sl.Has(func(x ssa.Value) bool {
+						k, ok := x.(*ssa.Call)
+						if !ok || calleeObj(&k.Call) == nil || calleeObj(&k.Call).Name() != method || len(k.Call.Args) == 0 {
+							return false
+						}
+						rs := backSlice(k.Call.Args[0], SliceOpt{})
+						return skip != nil && rs.Vals[skip]
+					})
+				}
+				c.Ob(rule, "parser.length@"+fnName(f)+": sequence length of the first share after padding", fromFirstShare(g.Call.Args[0], "SequenceLen"), p.Pos(st.Pos()),
+					"the length argument is SequenceLen() of a share taken from skipPadding's result")
+				c.Ob(rule, "parser.length@"+fnName(f)+": version of the same share", fromFirstShare(g.Call.Args[1], "Version"), p.Pos(st.Pos()),
+					"the has-signer argument derives from Version() of a share taken from skipPadding's result (not of the share in front of the padding)")
+			}
+		}
+	}
+	c.Floor(rule, "assignments of parser.length outside reset", n, 1)
 }
